@@ -21,7 +21,7 @@ TYPE_ANN = {int: 'int', str: 'str', list: 'list', dict: 'dict'}
 
 def shapes(tier):
     in_forms = [()] + [(a,) for a in ('class', 'name')] + list(itertools.product(('class', 'name'), repeat=2))
-    p_kinds = ('required', 'defaulted', 'object', 'chainobj')
+    p_kinds = ('required', 'defaulted', 'object', 'chainobj', 'renamed')
     p_forms = [()] + [(a,) for a in p_kinds] + list(itertools.product(p_kinds, repeat=2))
     out = []
     for ins, ps, style in itertools.product(in_forms, p_forms, ('args', 'registry')):
@@ -72,6 +72,8 @@ class Up{i}(Task):
     for j, kind in enumerate(shape['params']):
         if kind == 'defaulted':
             params.append(f"Parameter('p{j}', default={'dflt%d' % j!r})")
+        elif kind == 'renamed':
+            params.append(f"Parameter('p{j}', name_in_config='cfg_key_{j}', default='rdflt')")
         else:
             params.append(f"Parameter('p{j}')")
     inputs = [(f'Up{i}' if form == 'class' else repr(f'up{i}')) for i, form in enumerate(shape['inputs'])]
@@ -121,6 +123,8 @@ def assignments(shape, tier):
                 opts.append([('given', 'explicit'), ('omitted', None), ('given', None)])
             elif kind == 'object':
                 opts.append([('obj', j)])
+            elif kind == 'renamed':
+                opts.append([('renamed', 'from-config-key'), ('omitted_renamed', None)])
             else:
                 opts.append([('cobj', j)])
         for combo in itertools.product(*opts):
@@ -145,10 +149,13 @@ def check(shape, mocks, pvals, base):
                 p[f'p{j}'] = ns['Obj'](v)
             elif how == 'cobj':
                 p[f'p{j}'] = ns['CObj'](v)
+            elif how == 'renamed':
+                p[f'cfg_key_{j}'] = v       # the value lives under the parameter's name_in_config
+                p[f'p{j}'] = 'decoy: the parameter name itself is not a config key'
         return p
     exp_args = {}
     for j, (how, v) in enumerate(pvals):
-        exp_args[f'p{j}'] = {'given': v, 'omitted': f'dflt{j}', 'obj': ['Obj', v], 'cobj': ['CObj', v, None]}[how]
+        exp_args[f'p{j}'] = {'given': v, 'omitted': f'dflt{j}', 'obj': ['Obj', v], 'cobj': ['CObj', v, None], 'renamed': v, 'omitted_renamed': 'rdflt'}[how]
     for i, m in enumerate(mocks):
         exp_args[f'up{i}'] = copy.deepcopy(m)
     names = [1 + len(mocks), True]
@@ -204,6 +211,19 @@ def check(shape, mocks, pvals, base):
                         continue
                     if mv != m or type(mv) is not type(m):
                         out.append(('mocked task does not return the supplied value', f'{mv!r} vs {m!r}'))
+    # ---- an upstream task given BOTH as a real task and as a mock is mocked: supplied value, never run
+    if mocks and all(type(m) in TYPE_ANN for m in mocks):
+        ns['RUNS'].clear()
+        hb = Path(base) / 'both'
+        pr = params()
+        pr.update({f'c{i}': 'real upstream would return this' for i in range(len(mocks))})
+        try:
+            ch = TestChain([ns[f'Up{i}'] for i in range(len(mocks))] + [T], mock_tasks={ns[f'Up{i}']: copy.deepcopy(m) for i, m in enumerate(mocks)}, parameters=pr, base_dir=hb)
+            got = ch['tested'].value
+            if got != exp_args or any(r.startswith('up') for r in ns['RUNS']):
+                out.append(('a task listed as real AND mocked is not mocked', f'value {got!r} (expected {exp_args!r}), runs {ns["RUNS"]}'))
+        except Exception as e:  # noqa
+            out.append(('TestChain fails when a task is listed as real and mocked', f'{type(e).__name__}: {str(e)[:200]}'))
     # ---- missing input / missing required parameter are reported at construction
     if mocks:
         partial = {ns[f'Up{i}'].slugname: m for i, m in enumerate(mocks)}
